@@ -500,7 +500,13 @@ func (p *hProfile) genStep(t *rapid.T, view *hView) bson.D {
 	case "dropDB", "listColls":
 		db, _ := splitNS(ns)
 		add("db", db)
-	case "listDBs":
+	case "listCollsFull":
+		db, c := splitNS(ns)
+		add("db", db)
+		if rapid.Bool().Draw(t, "lcf") {
+			add("filter", bson.D{{Key: "name", Value: c}})
+		}
+	case "listDBs", "listDBsFull":
 	}
 	if p.storeFail > 0 && isWriteOp(op) && op != "txnAborted" {
 		// rapid favours the ends of an integer range: take the percentage
